@@ -53,6 +53,38 @@ def targs(*want):
     return lambda d: astload.template_args(d)[:len(want)] == list(want)
 
 
+# std::vector<future_t> (section_t's base class, or a local vector of futures) and its iterators, std::shared_future<void>: section.h
+FUTVEC = r'std::vector<(nano::parallel::)?future_t>|std::vector<std::shared_future<void>\s*>'
+FIT = r'__normal_iterator<(const )?std::shared_future<void> \*|^std::vector<(std::shared_future<void>|(nano::parallel::)?future_t)>::(const_)?iterator$'
+FUT_CALLS = [(r'^operator!=\|bool \(const __normal_iterator<(const )?std::shared_future', '({0}.i != {1}.i)'),
+             (r'^operator==\|bool \(const __normal_iterator<(const )?std::shared_future', '({0}.i == {1}.i)'),
+             (r'^operator\+\+\|.*__normal_iterator<(const )?std::shared_future', '(++{0}.i)'),
+             (r'^operator\*\|.*__normal_iterator<(const )?std::shared_future', '(*nv_future_at({0}.v, {0}.i))'),
+             (r'^operator\+\|.*__normal_iterator<(const )?std::shared_future', 'nv_fit_plus({0}, {1})'),
+             (r'^ctor\|(%s)\|void \((std::)?vector<.*> &&\)' % FUTVEC, 'nv_futvec_move({&0})'),
+             (r'^operator=\|.*vector<.*> &&\)\|(%s|nano::parallel::section_t)' % FUTVEC, 'nv_futvec_move_assign({&0}, {&1})'),
+             (r'^ctor\|(%s)\|void \(__gnu_cxx::__normal_iterator<(const )?std::shared_future<void> \*.*, __gnu_cxx::__normal_iterator<' % FUTVEC, 'nv_futvec_range({0}, {1})'),
+             (r'^operator=\|.*\(const (std::)?vector<.*> &\)\|(%s|nano::parallel::section_t)' % FUTVEC, 'nv_futvec_copy_assign({&0}, {&1})'),
+             (r'^swap\|.*\|(%s|nano::parallel::section_t)' % FUTVEC, 'nv_futvec_swap({&0}, {&1})'), (r'^move\|', '{0}')]
+FUT_MEMBERS = [(r'^c?begin\|std::vector<std::shared_future', 'nv_fit_begin({self})'),
+               (r'^c?end\|std::vector<std::shared_future', 'nv_fit_end({self})'),
+               (r'^swap\|std::vector<std::shared_future', 'nv_futvec_swap({self}, {&0})'),
+               (r'^clear\|std::vector<std::shared_future', 'nv_futvec_clear'), (r'^empty\|std::vector<std::shared_future', 'nv_futvec_empty'),
+               (r'^size\|std::vector<std::shared_future', '{self}->size'),
+               (r'^valid\|std::__basic_future<void>', 'nv_future_valid'), (r'^get\|std::shared_future<void>', 'nv_future_get!'),
+               (r'^wait\|std::__basic_future<void>', 'nv_future_wait'),
+               (r'^wait_(for|until)\|std::__basic_future<void>', 'nv_future_wait_for({self})')]
+
+
+def section_fns():
+    """section_t::block(raise) and ~section_t() (contracts: section.h); ~section_t calls block through its contract"""
+    scommon = dict(self_struct='struct nv_section', types=[(r'::difference_type$', 'int64_t'), (FIT, 'struct nv_fit'), (r'^(%s)$' % FUTVEC, 'struct nv_section')] + TYPES, uf_float=False)
+    block = Fn('section_block', SRC, 'block', flt='section_t::block', calls=FUT_CALLS, members=FUT_MEMBERS, **scommon)
+    sdtor = Fn('section_dtor', SRC, '~section_t', flt='section_t::~section_t', kinds=('CXXDestructorDecl',),
+               calls=FUT_CALLS, members=[(r'^block\|nano::parallel::section_t', 'nv_call_block({self}, {0})!')] + FUT_MEMBERS, **scommon)
+    return block, sdtor
+
+
 def pool_size():
     return Fn('pool_size', TU, 'size', flt='nano::parallel::pool_t::size', self_struct='struct nv_pool', types=TYPES,
               members=[(r'^size\|std::vector<std::thread', '{self}->size')], uf_float=False)
@@ -65,7 +97,7 @@ def map_fns(tag, cxx):
                (r'^reserve\|std::vector<std::shared_future<void>', 'nv_section_reserve({self}, {0})'),
                (r'^emplace_back\|std::vector<std::shared_future<void>', 'nv_section_emplace_back({self}, {0})'),
                (r'^notify_all\|std::condition_variable', 'nv_notify_all'),
-               (r'^block\|nano::parallel::section_t', 'nv_section_block({self}, {0})!')]
+               (r'^block\|nano::parallel::section_t', 'nv_section_block({self}, {0})!')] + FUT_MEMBERS[2:6]     # swap / clear / empty / size
     calls_c = LOCKS + [(r'^min\|', 'nv_min({0}, {1})'), (r'^operator\(\)\|void \(\w[\w ]*, \w[\w ]*, size_t\) const\|nvdrv::op_range_t', 'nv_op_range({&0}, {1}, {2}, {3})')]
     calls_i = LOCKS + [(r'^operator\(\)\|void \(\w[\w ]*, size_t\) const\|nvdrv::op_index_t', 'nv_op_index({&0}, {1}, {2})')]
     flt = 'nano::parallel::pool_t::map'
@@ -120,14 +152,7 @@ def other_targets():
                        (r'^end\|std::vector<std::thread', '{self}->size'), (r'^join\|std::thread', 'nv_thread_join({self}, self)')], **pcommon)
 
     B = 'specs/C17/block.h'
-    scommon = dict(self_struct='struct nv_section', types=[(ITER, 'uint64_t')] + TYPES, uf_float=False)
-    block = Fn('section_block', SRC, 'block', flt='section_t::block',
-               calls=ITER_OPS + [(r'^operator\*\|.*__normal_iterator<std::shared_future', '(*nv_future_at({0}))')],
-               members=[(r'^begin\|std::vector<std::shared_future', '((uint64_t)0)'), (r'^end\|std::vector<std::shared_future', '{self}->size'),
-                        (r'^valid\|std::__basic_future<void>', 'nv_future_valid'), (r'^get\|std::shared_future<void>', 'nv_future_get!'),
-                        (r'^wait\|std::__basic_future<void>', 'nv_future_wait')], **scommon)
-    sdtor = Fn('section_dtor', SRC, '~section_t', flt='section_t::~section_t', kinds=('CXXDestructorDecl',),
-               members=[(r'^block\|nano::parallel::section_t', 'nv_block_stub')], **scommon)
+    block, sdtor = section_fns()
 
     Q = 'specs/C17/queue.h'
     qtypes = TYPES + [(r'^std::future<void>$|^future<void>$', 'struct nv_future'), (r'\(lambda at .*parallel\.h', 'struct nv_fn'), (r'^nvdrv::fn_t$', 'struct nv_fn')]
@@ -140,7 +165,7 @@ def other_targets():
     enq = Fn('enqueue', TU, 'enqueue', flt='nano::parallel::queue_t::enqueue', select=lambda d: astload.template_args(d) == ['const nvdrv::fn_t &'], **qcommon)
     return [Target('worker_run', [run, pred()], W), Target('worker_wait_pred', [pred()], W), Target('worker_ctor', [wctor], W),
             Target('pool_ctor', [ctor, maxs(), qctor()], C), Target('queue_ctor', [qctor()], C), Target('pool_max_size', [maxs()], C), Target('pool_dtor', [dtor], C),
-            Target('section_block', [block], B), Target('section_dtor', [sdtor], B),
+            Target('section_block', [block], B), Target('section_dtor', [sdtor, section_fns()[0]], B, replace=['section_block']),
             Target('enqueue_no_lock', [enl], Q), Target('enqueue', [enq], Q)]
 
 
@@ -150,31 +175,45 @@ def build(tier):
         H = f'specs/C17/map_{tag}.h'
         chunk, index = map_fns(tag, cxx)
         tc, ti = task_fns(tag, cxx, cty)
-        targets += [Target(f'map_chunk_{tag}', [chunk, pool_size()], H), Target(f'map_index_{tag}', [index, pool_size()], H),
+        SR = ['section_block', 'section_dtor']     # the real block / ~section_t, called through their contracts (section.h)
+        targets += [Target(f'map_chunk_{tag}', [chunk, pool_size()] + list(section_fns()), H, replace=SR),
+                    Target(f'map_index_{tag}', [index, pool_size()] + list(section_fns()), H, replace=SR),
                     Target(f'map_chunk_task_{tag}', [tc], H), Target(f'map_index_task_{tag}', [ti], H)]
     targets += other_targets()
     import count_smt
+    import conc
+    bounded = conc.targets(tier, globals())
     vcs, fns = [], []
     for tag, _, _ in TSIZES:
         v, info = count_smt.vcs_for(tag)
         vcs += v
         fns.append(info)
     return {
-        'targets': targets, 'vcs': vcs, 'functions': fns,
+        'targets': targets, 'vcs': vcs, 'functions': fns, 'bounded': bounded,
         'decided': [
             'pool_t::map (chunked), tsize = tensor_size_t / size_t / int, every elements, chunksize >= 1, pool size >= 1: the (begin, end) ranges handed to the operator (sequential branch) or captured by value into the enqueued tasks (parallel branch) tile [0, elements): first at 0, consecutive, non-empty, end == min(begin + chunksize, elements), last ends at elements; the recurrence has one solution, so both branches generate the same sequence; only one branch generates; something is generated iff elements > 0',
             'number of generated ranges == (elements + chunksize - 1) / chunksize == the count passed to section.reserve (SMT over Int, with overflow obligations)',
             'pool_t::map (un-chunked): indices 0..elements-1 once each, in order; number of tasks == elements == reserve count',
             'each task lambda calls the operator exactly once on exactly its captured range / index with the worker id it is run with; the sequential branch passes worker id 0 < pool size',
-            'map protocol: tasks are pushed with the queue mutex held; the mutex is released before blocking; workers are notified after the last push and before blocking; the section holds exactly one future per task, in order; block gets the caller\'s raise flag; on the normal and on the exceptional path map returns only after ~section_t waited for every task; an exception leaves map only if raise is set',
+            'map protocol: tasks are pushed with the queue mutex held; the mutex is released before blocking; workers are notified after the last push and before blocking; the section holds exactly one future per task, in order; block gets the caller\'s raise flag; an exception leaves map only if raise is set',
+            'map completion on EVERY exit (normal or exceptional), for an arbitrary (ghost) task of the call: when map is left, this thread has observed that the task finished (wait() / get() returned or threw, or wait_for() reported ready).  Proved MODULARLY: map calls the REAL section_t::block and ~section_t through their contracts (DFCC replace-call-with-contract, section.h), and both are proved against these contracts in targets section_block / section_dtor; ~section_t runs at every scope exit of `section` (C++ rule, applied by the printer) with the exception in flight set aside and must not throw itself',
+            'map re-throw: with raise == true, if any task of the call ends with a stored exception then an exception leaves map (it is never swallowed); with raise == false none leaves',
             'worker loop (one worker, monitor semantics for wait(lock, pred) with the real predicate): front/pop_front only on a non-empty queue with the lock held; the popped task is the one run, exactly once, with this worker\'s id, after the lock was released; the worker leaves only after seeing stop, with the queue cleared, the others notified, no lock held, nothing run after stop was seen',
             'pool_t::pool_t(threads): #workers == #threads == clamp(threads, 1, max_size()) in [1, max_size()], worker k gets id k (so every id < size()); max_size() == max(1, hardware_concurrency) >= 1; worker_t constructor stores its id',
             '~pool_t: stop written with the mutex held, workers notified after that, mutex released before any join, every thread joined exactly once',
-            'section_t::block(raise): every future visited once in order; valid futures waited with get() iff raise else wait(); exception leaves only if raise; ~section_t calls block(false) once',
-            'queue_t::enqueue_no_lock / enqueue: exactly one task is pushed, the returned future is that task\'s; enqueue pushes under the lock and notifies once afterwards'],
+            'section_t::block(raise) (real body incl. any LOCAL std::vector<future_t> it uses: default / move construction, swap, std::swap, clear, range-for; file-local helpers are extracted automatically), at a ghost task: (1) an exception leaves only if raise; (2) on the normal exit every valid future held at entry has been waited for; (3) on the exceptional exit each of them has been waited for OR IS STILL HELD BY THE SECTION (so ~section_t waits for it); (4) with raise a stored exception is delivered (block does not return normally) and (5) every valid future went through get() -- a future that is already ready (wait_for) is no exception; (6) the exception that leaves is the first stored one in visiting order; (7) observed completion is never lost; every position visited once, in order; get / wait / wait_for only on valid futures',
+            '~section_t(): does not throw; every valid future the section holds has been waited for (block is called through its proved contract)',
+            'queue_t::enqueue_no_lock / enqueue: exactly one task is pushed, the returned future is that task\'s; enqueue pushes under the lock and notifies once afterwards',
+            'BOUNDED (not proved; listed under bounded; THOROUGH tier: target conc_map_1sub_2_w0only, elements <= 2, 55-70 s of SAT time; QUICK tier: only conc_map_1sub_1_w0only, the same harness with elements <= 1, i.e. the sequential branch of map between the real constructor and ~pool_t with idle workers, ~30 s): the extracted pool_t(2) constructor (real worker_t constructor binds queue and id, any hardware_concurrency), map(elements <= 2, op, any raise) un-chunked size_t with the real enqueue_no_lock and task lambda, worker_t::operator() with its real wait predicate, section_t::block / ~section_t and ~pool_t run as CBMC threads: ALL interleavings of the submitting thread with worker 0 in which worker thread 1 is not scheduled before it is joined.  Asserted: every task body runs at most once; front / pop_front / emplace_back / clear / empty only with the mutex held by the calling thread and (front, pop_front) on a non-empty queue; the popped task holds its function and was moved out before pop_front; the task and the operator run outside the lock; worker id below the pool size and not in use by another running task of the call; when map returns every element was processed and every task finished, none outside [0, elements); no exception leaves map; wait called with the lock held; no self-deadlock on the mutex; join with the mutex released, once per thread; after ~pool_t every worker has left its loop without the lock and was joined, stop is set, the mutex free, the queue empty, nothing touches the queue or runs afterwards; every loop stays within its unwinding bound; reachability canary: the final state is reached'],
         'not_decided': [
-            'EVERY interleaving claim of the property: that each enqueued task is executed exactly once when several workers and submitters run concurrently, that a worker id is never used by two tasks of one call at the same time, that map returns only after all tasks finished under every schedule, absence of lost wake-ups, deadlock-free shutdown with busy workers / queued tasks, several threads submitting to one pool',
-            'data races on the operator\'s own state; exceptions thrown by the operator in the sequential branch',
+            'EVERY interleaving claim of the property remains UNPROVED (the interleaving check below is a bounded stand-in, never counted): that each enqueued task is executed exactly once when several workers and submitters run concurrently, that a worker id is never used by two tasks of one call at the same time, that map returns only after all tasks finished under every schedule, absence of lost wake-ups, deadlock-free shutdown with busy workers / queued tasks, several threads submitting to one pool',
+            'interleavings in which BOTH worker threads run: the same harness with two worker threads (conc.py scen_a(2, False): 2 workers + submitter, <= 2 tasks) is beyond CBMC 6.11\'s partial-order encoding here: ~370k variables / 1.8M clauses, the first satisfying schedule takes 30-80 s and the final UNSAT call did not finish in 280 s with minisat or cadical, also when restricted to the single worker-id assertion (--property), with hardware_concurrency fixed, without ~pool_t, or with the workers first scheduled at map\'s notify_all; critical sections as CBMC atomic sections (Lipton reduction) are rejected by symex ("atomic sections differ across branches": the worker leaves its critical section on two paths).  Consequently the worker-id exclusivity clause (two workers given the same tnum) is exercised by the sequential constructor proof only; 2 submitters and shutdown under load (queued / running tasks at ~pool_t, broken promises: conc.h NV_BROKEN_PROMISES) were not run',
+            'run time of the two-element interleaving scenario: 55-70 s CPU (cadical: 20 s for the canary model + 43 s for the final UNSAT call); tried without gain: minisat (8 + 53 s), --slice-formula (22 + 46 s), --no-sat-preprocessor (15 + 80 s), kissat as external solver (36 + 60 s), the UNSAT call alone without the canaries (75 s, so splitting the properties over processes does not help); the one-element scenario still takes ~30 s (constructor / shutdown interleavings dominate, not the tasks), so the cost sits in the lifecycle events of the partial-order encoding (mutex word 24 writes, deque size 14, running flags 14); it therefore runs in the thorough tier only (its 7 canary mutations carry "tier": "thorough")',
+            'lost wake-ups / deadlock freedom: the bounded model lets wait(lock, pred) return whenever pred holds (notify_one / notify_all are no-ops), so a missing or misplaced notify is invisible; only "the final state is reachable under some schedule" is checked (nv_canary).  The stricter notification-counter model is sketched in conc.h (NV_STRICT_NOTIFY) but not run',
+            'data races on plain members read outside the models (m_stop is read directly by the extracted code): no race detector is run (goto-instrument --race-check not tried); sequential consistency is assumed by the bounded check',
+            'data races on the operator\'s own state; exceptions thrown by the operator in the sequential branch (observation, demonstrated natively: there an exception leaves map also with raise == false, so whether map(.., false) throws depends on the pool size: specs/C17/FINDING_seq_branch_raise.md)',
+            'section_t::block written with an INDEX loop ((*this)[i]) instead of an iterator / range-based loop (those are covered: the loop contract names the iterator by its role): undecided (exit 2), not refuted; a local of type section_t inside block (its destructor calls block again) and try / catch inside block or map are not in the printer\'s / the model\'s vocabulary (undecided)',
+            'that "this thread observed the task finished" implies the operator\'s effects are visible to the caller (happens-before through the shared state of std::future: assumed, C++ [futures.state])',
             'std::thread(std::cref(worker)) starts worker k on thread k (lambda inside std::transform: not extractable, dependent types)',
             'that clearing the queue on stop breaks the promises of the dropped tasks (std::packaged_task destructor semantics)',
             'chunked map with chunksize < elements and elements + chunksize not representable in tsize (precondition, see assumptions)'],
@@ -186,10 +225,13 @@ def build(tier):
             'std::scoped_lock / std::unique_lock lock in the constructor and unlock in the destructor; destructors of locals run at scope exit in reverse order (C++ rule, applied by the printer)',
             'std::min / std::max / std::clamp (with lo <= hi) return the mathematical min / max / clamp',
             'std::vector::emplace_back appends one element; std::transform + back_inserter appends one output per input; range-for visits begin..end',
-            'std::packaged_task(f) holds f, get_future() returns its future, moving it leaves it empty; shared_future::get() waits then rethrows, wait() waits',
+            'std::packaged_task(f) holds f, get_future() returns its future, moving it leaves it empty; shared_future::get() waits then rethrows the stored exception (every time it is called; the only call that delivers it), wait() waits; wait_for / wait_until return future_status::ready iff the shared state is ready (it may become ready at any time, never un-ready), never deferred, and consume nothing; valid() of the copies of one future agree',
+            'std::vector<future_t> (section_t and local vectors): a vector of futures is the contiguous range of task ids it holds (map\'s emplace_back asserts that it is filled in task order); default construction = empty, swap / std::swap exchange contents, move construction / assignment leave the source empty, clear() drops the futures WITHOUT waiting (shared_future destructor does not block), iterators = (container, position); a copy (copy construction / assignment, construction from an iterator range) holds the same futures as its source (shared states)',
+            'the task whose future throws in get() is described by a prophecy bit per ghost task (the task ends with a stored exception or not); futures other than the ghost one throw nondeterministically',
             'queue_t::enqueue_no_lock as used inside map is modelled by the values the pushed lambda captures (checked by-copy); its own body is verified in target enqueue_no_lock',
             'worker_t::m_queue (a reference member) is modelled as the worker\'s own view of the queue',
-            'the user operator is opaque and, in the contracts, does not throw'],
+            'the user operator is opaque and, in the contracts, does not throw',
+            'BOUNDED interleaving stand-in only (conc.h): std::mutex = lock word taken atomically under assume(free); wait(lock, pred) = returns at once if pred holds, else releases and atomically {assume(free && pred); re-acquire} (blocking; notify abstracted away); packaged_task = the captured values + a ready bit set after the extracted lambda body returned, shared_future::get / wait = assume(ready); std::deque = array + head/size with bounds asserts; std::thread(std::cref(worker k)) runs worker k, join = assume(thread finished); each queue-operation model is one atomic step (it first asserts that the calling thread holds the mutex); sequential consistency; CBMC --pointer-check is off in these targets (its dead-object bookkeeping is rejected by the concurrency encoding), array accesses are covered by --bounds-check and the models\' own bound assertions'],
         'trusted': [],
     }
 
@@ -204,6 +246,15 @@ def replay(rp):
     import replaylib
     out = {'reproduced': False, 'runs': []}
     m = re.match(r'map_(chunk|index)(?:_count)?_(i64|u64|i32)$', rp['target'])
+    if rp['target'] in ('section_block', 'section_dtor'):
+        # completion / re-throw clauses: scenarios with throwing tasks on the real pool (timing makes the schedule likely, not certain)
+        exe = replaylib.build_header_only('replay/C17_block_replay.cpp', 'C17_block_replay',
+                                          extra=[os.path.join(replaylib.REPO, 'src/core/parallel.cpp'), '-lpthread'])
+        rc, so, se = replaylib.run_driver(exe, [], timeout=120)
+        out['runs'].append({'driver': 'replay/C17_block_replay.cpp', 'exit': rc, 'output': so.strip()[-1500:]})
+        out['reproduced'] = rc == 1
+        out['note'] = 'schedule dependent: throwing tasks + sleeps on the real pool; the worker loop / constructor / destructor targets have no native driver'
+        return out
     if not m:
         out['note'] = 'no native driver for this target: the replay file carries the verifier output only'
         return out
